@@ -167,3 +167,14 @@ Fixpoint pairs2 (l : list Z) : list (list Z) := match l with a :: b :: t => [a; 
 Definition gather2Q (f : list Q) (m : list (list Z)) : list (list Q) := map (gatherQz f) m.
 Definition argmax_rows (m : list (list Q)) : list Z := map argmaxZ m.
 Definition pick2 (m : list (list Z)) (rows cols : list Z) : list Z := map (fun p => get2 m (fst p) (snd p)) (combine rows cols).
+(* np.power(a, k) for a literal k >= 0; element-wise a < s; np.sum of a bool array; a[mask] = vals (vals: one per True); s + a *)
+Definition vpow (a : list Q) (k : Z) : list Q := map (fun x => Qpower x k) a.
+Definition ltmaskQ (a : list Q) (s : Q) : list bool := map (fun x => Qltb x s) a.
+Definition countB (m : list bool) : Z := zlen (filter (fun b => b) m).
+Fixpoint mask_scatter (mask : list bool) (dst vals : list Q) : list Q :=
+  match mask, dst with
+  | true :: ms, _ :: ds => match vals with v :: vs => v :: mask_scatter ms ds vs | [] => dst end
+  | false :: ms, d :: ds => d :: mask_scatter ms ds vals
+  | _, _ => dst
+  end.
+Definition sadd (s : Q) (a : list Q) : list Q := map (Qplus s) a.
